@@ -65,6 +65,12 @@ fn build(op: &Value, regs: &[CanonicalAssets]) -> CanonicalAssets {
             let exprs: Vec<AssetExpr> = regs[i].clone().into();
             CanonicalAssets::from(exprs)
         }
+        "relist" => {
+            let mut exprs: Vec<AssetExpr> = regs[i].clone().into();
+            let more: Vec<AssetExpr> = regs[j].clone().into();
+            exprs.extend(more);
+            CanonicalAssets::from(exprs)
+        }
         other => panic!("driver: unknown assets op {other}"),
     }
 }
